@@ -290,11 +290,23 @@ def run(ctx):
     cache_histories(ctx, books)
     # 4. access paths agree (default option) — checked on the implementation's answers
     al = []
+    near_of = {}
     for k, (f, p, names, tables) in enumerate(books):
         calls = ["wsall"]
         for i, n in enumerate(names[:5]):
             calls += ["range " + n, "at %d" % i] + (["ref " + n] if f in HAS_REF else [])
         calls += ["range " + hexs("~no~such~sheet~"), "at %d" % (len(names) + 3)]
+        # names that are ALMOST a sheet name are unknown names too: an error, not that sheet
+        near = []
+        for n in names[:2]:
+            t = unhexs(n)
+            for v in (t.swapcase(), t.upper(), t.lower(), t + " ", " " + t, t[:-1], t + "x", "'" + t + "'"):
+                if v and hexs(v) not in names and hexs(v) not in near:
+                    near.append(hexs(v))
+        near = near[:10]
+        near_of[k] = near
+        for v in near:
+            calls += ["range " + v, "formula " + v] + (["ref " + v] if f in HAS_REF else [])
         al.append("p%d\topen\t%s\t%s\t%s" % (k, f, p, ";".join(calls)))
         al.append("q%d\topen\tauto\t%s\t%s" % (k, p, ";".join(calls)))
     aimpl = ctx.run_impl(al)
@@ -329,6 +341,17 @@ def run(ctx):
                 why = "an unknown sheet name did not yield a not-found error: " + a[idx][:80]
             if a[idx + 1] != "none":
                 why = "worksheet_range_at past the last sheet is not None"
+            idx += 2
+            for v in near_of.get(k, []):
+                kinds = ["range", "formula"] + (["ref"] if f in HAS_REF else [])
+                for kind in kinds:
+                    if idx >= len(a):
+                        why = why or "call sequence stopped early"
+                        break
+                    ans = a[idx]; idx += 1
+                    ok = ans.startswith("err:notfound") or (kind == "merges" and ans in ("none", "[]", "err:notfound") )
+                    if not ok and why is None:
+                        why = "%s(%r), a name that is not a sheet of the workbook, answered %s" % (kind, unhexs(v), ans[:80])
         if why is None:
             qs = q.split(";;")
             if q.startswith("openerr"):
